@@ -99,8 +99,15 @@ class Lay:
                     else:
                         cur = self._seq(cur, self.node(sn, env))
                 return cur
-            cur = self.nodes(n.get("sub", []), env)
-            return self._seq(cur, self.call(n, env))
+            self._consumed = False
+            callp = self.call(n, env)
+            consumed = self._consumed
+            self._consumed = False
+            # a closure handed to a local helper that calls it (`write_key_type(.., |ser, d| ..)`) runs inside the helper, where
+            # the helper calls it -- not at the point where it is written
+            subs = [sn for sn in n.get("sub", []) if not (consumed and sn.get("k") == "closure")]
+            cur = self.nodes(subs, env)
+            return self._seq(cur, callp)
         if k == "match":
             cur = self.nodes(n.get("pre", []), env)
             alts = set()
@@ -176,17 +183,55 @@ class Lay:
             sz = args[1]
             v = sz.get("lit") if "lit" in sz else "var:" + _norm_key(_x(sz))
             return {((("pstr_padded", v),), None)}
+        # ---- a call of a parameter / local holding a closure (`f(ser)` inside a helper generic over F: FnOnce):
+        #      placeholder, replaced at the call site of the helper by the paths of the closure it was given
+        if c.get("local") and "rfn" not in c:
+            return {((("callparam", c["local"]),), None)}
         # ---- local callee: inline
         if "rfn" in c:
             callee_paths = self.flat_fn(c["rfn"])
             if not any(s for s in callee_paths):
                 return {((), None)}
             sub = self._subst_map(n, c)
-            return {(tuple(_subst_atom(a, sub) for a in s), None) for s in callee_paths}
+            out = {(tuple(_subst_atom(a, sub) for a in s), None) for s in callee_paths}
+            if any(a[0] == "callparam" for s, _ in out for a in s):
+                out = self._expand_callparams(out, n, c, env)
+                self._consumed = True
+            return out
         # ---- unresolved serialize / parse through dyn or a type parameter
         if c.get("rkind") in ("unresolved", "virtual") and re.search(r"Serializable::serialize$|Parsable::parse$|RandomParsable::rparse$|WritableTell::(serialize_tail|write_data)$", d):
             return {((("dyn", d.split("::")[-2] + "::" + d.split("::")[-1] + "<" + str(c.get("self_ty")) + ">"),), None)}
         return {((), None)}
+
+    def _expand_callparams(self, paths, n, c, env):
+        """replace ("callparam", p) atoms by the layouts of the closure passed for parameter p at this call site"""
+        F = self.F
+        params = [re.sub(r"^(&mut |&|mut )+", "", p).split(":")[0].strip() for p in F.hir[c["rfn"]]["params"]]
+        actual = ([n["recv"]] if n.get("recv") is not None else []) + n.get("args", [])
+        closures = [sn for sn in n.get("sub", []) if sn.get("k") == "closure"]
+        given = {}
+        k = 0
+        for p, a in zip(params, actual):
+            if re.match(r"^\s*(move\s*)?\|", a.get("snip", "")) or a.get("ty", "").startswith("{closure"):
+                if k < len(closures):
+                    body = self.nodes(closures[k]["body"], env)
+                    given[p] = {s_ for (s_, t_) in body if t_ != "abort"} or {()}
+                    k += 1
+        out = set()
+        for s_, t_ in paths:
+            alts = [()]
+            for a in s_:
+                if a[0] == "callparam" and a[1] in given:
+                    alts = [x + y for x in alts for y in given[a[1]]]
+                elif a[0] == "callparam":
+                    alts = [x for x in alts]      # unknown callable: contributes nothing
+                else:
+                    alts = [x + (a,) for x in alts]
+                if len(alts) > MAX_PATHS:
+                    raise AnchorLost("layout extraction: too many paths through closure parameters")
+            for x in alts:
+                out.add((x, t_))
+        return out
 
     def _subst_map(self, n, c):
         """callee parameter name -> caller argument key; callee generic -> resolved arg"""
@@ -203,6 +248,12 @@ class Lay:
                     m[p] = str(a["lit"])
                 else:
                     m[p] = _norm_key(_x(a))
+                # a byte array of known size handed over as a slice: the callee writes `p` whole, i.e. that many bytes
+                for ty in (a.get("ty0", ""), a.get("ty", "")):
+                    mm = re.search(r"\[u8; (\d+)\]", ty)
+                    if mm:
+                        m["len:" + p] = int(mm.group(1))
+                        break
         gens = F.fns[c["rfn"]].get("generics", [])
         for g, v in zip(gens, c.get("rargs", [])):
             if re.match(r"^\d+$", v):
@@ -224,6 +275,29 @@ class Lay:
         return res
 
 
+def _struct_field(s, field):
+    """value of `field` in a rendering `#S{a:x,b:y}` (top-level split)"""
+    if not (s.startswith("#S{") and s.endswith("}")):
+        return None
+    inner = s[3:-1]
+    depth, start, parts = 0, 0, []
+    for i, c in enumerate(inner):
+        if c in "{([":
+            depth += 1
+        elif c in "})]":
+            depth -= 1
+        elif c == "," and depth == 0:
+            parts.append(inner[start:i])
+            start = i + 1
+    parts.append(inner[start:])
+    for p in parts:
+        if ":" in p:
+            k, v = p.split(":", 1)
+            if k == field:
+                return v
+    return None
+
+
 def _subst_key(k, sub):
     if not isinstance(k, str):
         return k
@@ -232,7 +306,13 @@ def _subst_key(k, sub):
     if k.startswith("var:"):
         pre, body = "var:", k[4:]
     for p, a in sub.items():
-        body = re.sub(r"(?<![\w.])%s\b" % re.escape(p), a, body)
+        if a.startswith("#S{"):
+            # the argument is a struct literal (rendered by the driver): `p.field` is that field's expression
+            def fld(m, a=a):
+                v = _struct_field(a, m.group(1))
+                return v if v is not None else m.group(0)
+            body = re.sub(r"(?<![\w.])%s\.(\w+)" % re.escape(p), fld, body)
+        body = re.sub(r"(?<![\w.])%s\b" % re.escape(p), a.replace("\\", "\\\\"), body)
     if re.match(r"^\d+$", body):
         return int(body)
     return pre + body
@@ -241,8 +321,10 @@ def _subst_key(k, sub):
 def _subst_atom(a, sub):
     if a[0] == "loop":
         return ("loop", frozenset(tuple(_subst_atom(x, sub) for x in s) for s in a[1]))
+    if a[0] == "bytes" and isinstance(a[1], str) and a[1].startswith("var:") and ("len:" + a[1][4:]) in sub:
+        return (a[0], sub["len:" + a[1][4:]])
     if a[0] in ("usized", "isized", "bytes", "pstr_padded"):
-        return (a[0], _subst_key(a[1], sub))
+        return (a[0], _subst_key(a[1], {k: v for k, v in sub.items() if not k.startswith("len:")}))
     return a
 
 
